@@ -64,6 +64,17 @@ def eff(want, given):
     return "".join(c for c in "JRWPASDO" if c in want and c in given)
 
 
+def restore_sessions(sc):
+    """a scenario read back from a replay / corpus file: sessions and user count are in its head lines"""
+    for l in sc.head:
+        w = l.split()
+        if w and w[0] == "sess":
+            sc.sessions[int(w[1])] = int(w[2])
+        elif w and w[0] == "user":
+            sc.nusers = max(sc.nusers, int(w[1]))
+    return sc
+
+
 def run_stateful(ctx, profiles, monitor, proj, rule, trusted, corpus=(), extra_files=(), taint=None,
                  counts=None, nontrivial=None,
                  extra_scns=None, extra_cov=None):
@@ -91,7 +102,7 @@ def run_stateful(ctx, profiles, monitor, proj, rule, trusted, corpus=(), extra_f
         sc = T.Scn(rp["replay"]["head"][0].split()[1])
         sc.head = rp["replay"]["head"]
         sc.ops = [tuple(o) for o in rp["replay"]["ops"]]
-        scns = [sc]
+        scns = [restore_sessions(sc)]
     else:
         cdir = os.path.join(vlib.ROOT, "corpus", ctx.pid)
         if os.path.isdir(cdir):
@@ -100,7 +111,7 @@ def run_stateful(ctx, profiles, monitor, proj, rule, trusted, corpus=(), extra_f
                 sc = T.Scn("c_" + f.split(".")[0])
                 sc.head = [("scn %s " % sc.id + " ".join(rp["head"][0].split()[2:]))] + rp["head"][1:]
                 sc.ops = [tuple(o) for o in rp["ops"]]
-                scns.append(sc)
+                scns.append(restore_sessions(sc))
         for pi, (profile, faults, share) in enumerate(profiles):
             scns += T.gen_scenarios(ctx, max(1, int(total * share)), profile, faults, prefix="p%d_" % pi)
         if extra_scns:
